@@ -146,7 +146,9 @@ InstallEndPanic ==
   /\ Req("C09", Ev.cls \in {"sig-mismatch", "bool-gate", "null"} => ~s.touched)
   /\ Req("C11", Ev.cls = "alloc-exhausted" => (s.pend = {} /\ s.mem[s.ins.f] = s.orig[s.ins.f]))
   /\ Req("C05", Ev.cls = "alloc-exhausted" => s.pend = {})
+  \* a mapping orphaned by the failed installation is never executed: its unflushed bytes do not matter
   /\ s' = [s EXCEPT !.phase = "user", !.unwinding = TRUE, !.orphans = @ \cup s.pend, !.pend = {},
+                    !.dirty = {d \in @ : d[1] \notin s.pend},
                     !.ver = IF s.ins.site # 0 /\ Ev.verifier_kept
                             THEN Append(@, [site |-> s.ins.site, n |-> s.ins.n]) ELSE @,
                     !.ins = [f |-> "none"]]
